@@ -412,6 +412,19 @@ Kind<ICMP> icmp_frag_needed() {
     K.image = [](const Shadow& sh, const std::vector<std::string>&, int, Image& im) { icmp_head(im, sh); im.zeros("unused", 1); im.zeros("rfc4884-length", 1); im.be16("mtu", num(sh, "mtu")); im.put("payload", oct(sh, "payload")); };   // RFC 1191 4.
     return K;
 }
+// the same two messages with the RFC 4884 length attribute in use: the quoted datagram is a whole number of 32-bit words (so nothing is padded) and
+// the length octet must hold that number of words -- next to the MTU / pointer, which must stay what was set
+Kind<ICMP> icmp_rfc4884_length(bool frag) {
+    Kind<ICMP> K = icmp_base(frag ? "DEST_UNREACHABLE.length-field" : "PARAM_PROBLEM.length-field", {frag ? 3u : 12u});
+    auto base_make = K.make;
+    K.make = [base_make](Rng& r, std::string& cfg, Shadow& init) { auto o = base_make(r, cfg, init); Bytes b = r.bytes(4 * (1 + r.below(24))); o->inner_pdu(new RawPDU(b.data(), (u32)b.size())); o->use_length_field(true); cfg += " use_length_field payload=" + std::to_string(b.size()); return o; };
+    if (frag) K.fields.push_back(NUMF(ICMP, mtu, 16, uint16_t)); else K.fields.push_back(NUMF(ICMP, pointer, 8, uint8_t));
+    K.fields.push_back(Field<ICMP>{"payload", [](Rng& r) { return B(r.bytes(4 * (1 + r.below(24)))); }, [](ICMP& o, const Val& v) { o.inner_pdu(new RawPDU(v.b.data(), (u32)v.b.size())); }, [](ICMP& o) { return B(raw_payload(o)); }});
+    K.image = [frag](const Shadow& sh, const std::vector<std::string>&, int, Image& im) { icmp_head(im, sh); const Bytes& p = oct(sh, "payload");
+        if (frag) { im.zeros("unused", 1); im.u8_("rfc4884-length", p.size() / 4); im.be16("mtu", num(sh, "mtu")); } else { im.u8_("pointer", num(sh, "pointer")); im.u8_("rfc4884-length", p.size() / 4); im.zeros("unused", 2); }
+        im.put("payload", p); };
+    return K;
+}
 Kind<ICMP> icmp_param_problem() {
     Kind<ICMP> K = icmp_base("PARAM_PROBLEM", {12});
     K.fields.push_back(NUMF(ICMP, pointer, 8, uint8_t)); K.fields.push_back(payload_field<ICMP>(100));
@@ -797,7 +810,7 @@ void build_programs() {
     add(prog_of(icmp6_echo())); add(prog_of(icmp6_router_advert()), 2); add(prog_of(icmp6_neighbour(false))); add(prog_of(icmp6_neighbour(true))); add(prog_of(icmp6_redirect()), 2);
     add(prog_of(icmp6_mld_query()), 3); add(prog_of(icmp6_mld2_report()), 2);
     add(prog_of(icmp_idseq("ECHO", {8, 0}, 0))); add(prog_of(icmp_idseq("INFO", {15, 16}, 1))); add(prog_of(icmp_idseq("TIMESTAMP", {13, 14}, 2)), 2); add(prog_of(icmp_idseq("ADDRESS_MASK", {17, 18}, 3)));
-    add(prog_of(icmp_redirect())); add(prog_of(icmp_frag_needed())); add(prog_of(icmp_param_problem())); add(icmp_helpers_program, 3);
+    add(prog_of(icmp_redirect())); add(prog_of(icmp_frag_needed())); add(prog_of(icmp_param_problem())); add(prog_of(icmp_rfc4884_length(true))); add(prog_of(icmp_rfc4884_length(false))); add(icmp_helpers_program, 3);
     add(tcp_flags_program, 2);
     add(prog_of(dhcp6_kind(true)), 2); add(prog_of(dhcp6_kind(false)));
     add(prog_of(bootp_kind())); add(prog_of(pppoe_kind()), 2); add(prog_of(soa_kind()), 2);
